@@ -641,16 +641,21 @@ def parseInternal (o : Opts) (fuel : Nat) (units : Str) : P Unit :=
   match units with
   | [] => pure ()                                                -- empty CIF
   | c :: rest => do
-    if disallowedInitial c then report CIF_DISALLOWED_INITIAL_CHAR 1 0
-    let bom := c == 0xFEFF
-    let input := if bom then rest else c :: rest
-    if bom ∧ rest.isEmpty then pure ()                           -- BOM-only CIF
-    else do
-      if o.dia = .cif1 then
-        (if bom then report CIF_DISALLOWED_CHAR 1 0 else pure ())
-      else
-        (if o.notUtf8 then report CIF_WRONG_ENCODING 1 1 else pure ())
-      parseCif o fuel { scan := Scan.init input, tok := none }
+    -- get_first_char(): a non-zero answer of the callback is returned to cif_parse_internal, which takes the value -1 for
+    -- CIF_EOF ("empty CIF": nothing is parsed, the result is CIF_OK) and returns any other value unchanged
+    let rv ← if disallowedInitial c then ask CIF_DISALLOWED_INITIAL_CHAR 1 0 else pure 0
+    if rv = -1 then pure ()
+    else if rv ≠ 0 then fail rv
+    else
+      let bom := c == 0xFEFF
+      let input := if bom then rest else c :: rest
+      if bom ∧ rest.isEmpty then pure ()                           -- BOM-only CIF
+      else do
+        if o.dia = .cif1 then
+          (if bom then report CIF_DISALLOWED_CHAR 1 0 else pure ())
+        else
+          (if o.notUtf8 then report CIF_WRONG_ENCODING 1 1 else pure ())
+        parseCif o fuel { scan := Scan.init input, tok := none }
 
 /-- outcome of a whole parse: return value, reports in order of occurrence, the target CIF afterwards -/
 structure Outcome where
